@@ -16,12 +16,13 @@ TECHNIQUE = ("Coq proof (symbolic execution of Session::process on an inbound Lo
 LEVEL_TEXT = ("Theorems: c23_acceptor_refuses / c23_acceptor_accepts / c23_acceptor_only (an acceptor completes a logon iff, under "
               "enforcement, TargetCompID equals its own CompID and, with a client list, the sender is listed -- given the expected "
               "sequence number; it answers with a Logon echoing HeartBtInt, adopts the interval and the identity, and resets both "
-              "numbers to 1 on ResetSeqNumFlag=Y), c23_eq_char, c23_neq_char / c23_neq_partial / c23_neq_refuted (operator!= is the "
-              "conjunction of the component inequalities), c23_initiator_partial (both CompIDs wrong: mismatch; mirrored: accepted) "
-              "and c23_initiator_refuted (exactly one wrong CompID: accepted, for every such response).")
+              "numbers to 1 on ResetSeqNumFlag=Y), c23_eq_char, c23_neq (a != b = not (a == b), for all identities) / c23_neq_char, "
+              "c23_neq_orig_refuted (the operator before ab2c959 was the conjunction of the component inequalities), c23_initiator "
+              "(under enforcement a response with TargetCompID or SenderCompID wrong -- either one -- is a mismatch), "
+              "c23_initiator_only / c23_initiator_accepts (it completes exactly for a mirrored response with the expected number).")
 LEVEL_NOTE = ("Trusted: Coq kernel, extraction, the hand transcriptions coq/Sess/*.v and coq/C23/SessionID.v (checked by the "
               "correspondence run), the harnesses. authenticate() = true, no SessionConfig, no client IP restriction, no login "
-              "schedule. The theorems are about the models; the defect F28 is listed as a known finding.")
+              "schedule. The theorems are about the models; the defect F28 was repaired in /repo (ab2c959) and is listed as fixed.")
 DESIGN_REF = "DESIGN.md section 4, C23"
 PROPS_FILE = "Props/Properties_C23.v"
 COQ_TARGETS = ["Props/Properties_C23.vo", "Extract/Extract_C23.vo"]
@@ -279,8 +280,8 @@ def nontrivial(case, r):
 
 
 def c_one_compid_differs(case, r, m):
-    """F28, the negation of the hypothesis of c23_neq_partial / c23_initiator_partial: the two identities
-    differ in exactly one CompID (a SID line, or the Logon response an initiator with enforce_compids gets)."""
+    """F28 (fixed in ab2c959; the entry suppresses nothing any more): the two identities differ in exactly one
+    CompID (a SID line, or the Logon response an initiator with enforce_compids gets)."""
     if case.line.startswith("SID "):
         w = case.line.split()
         return len(w) == 5 and ((w[1] != w[3]) != (w[2] != w[4]))
